@@ -750,7 +750,7 @@ def c07_frag(ctx):
             out.fail(key, '%s does not append the runner\'s result vectors as they are: appended %s' % (key_of(b), t_str(apps[0]['args'][1])[:200] if apps else 'nothing'), b.where())
         elif not ok2:
             out.fail(key + '/target', '%s appends the fragments to %s, not to its output parameter' % (key_of(b), t_str(apps[0]['args'][0])[:100]), b.where())
-    out.floor('fragment_entries', n, 3 if not ctx.fixture else 0)
+    out.floor('fragment_entries', n, 1 if not ctx.fixture else 0)
     return out
 
 
@@ -836,7 +836,7 @@ def c06_offset(ctx):
     for (bn, bb), (clo, fns) in sorted(S.task_of_site.items()):
         b = F.bodies[bn]
         bag_params = [l for l in b.arg_locals() if b.locals[l]['head'] in BAG_HEADS]
-        if not bag_params or clo is None:
+        if not bag_params or clo is None or clo == '<wrapper>':
             continue
         n += 1
         r = ctx.run(bn)
@@ -2260,8 +2260,8 @@ def c05_merge(ctx):
             if a[0] == 'ref' and len(a) > 1 and isinstance(a[1], tuple) and a[1][:2] == ('closure', task_clo):
                 continue
             for (x, tp) in user_closure_values(ctx, b, a):
-                if len(fb.get(tp, {}).get('by_ref', [])) == 1:
-                    bad.append((i, x, tp))
+                if len(fb.get(tp, {}).get('by_ref', [])) == 1 and fb.get(tp, {}).get('inputs') != '(usize,)':
+                    bad.append((i, x, tp))      # (an `Fn(usize)` parameter is the thread task handed through a wrapper of the runner)
         out.inst(key, not bad, 'non-task arguments hold no stage closure', sample={'kernel': key_of(b), 'entry': strip_generics(entry), 'task_closure': task_clo})
         for (i, x, tp) in bad[:1]:
             out.fail(key, '%s hands the stage closure %s (type parameter %s) to %s outside the task (argument %d): it is evaluated again, on the spawning thread, for values the workers already passed through it - more than once per element'
@@ -2735,6 +2735,21 @@ def c02_idx(ctx):
     return out
 
 
+def _is_tested_match(a, inner):
+    """the returned alternative `a` is the tested Option `inner`, `Some(<its payload>)`, or `Some((<begin> + payload.0, payload.1))` -
+    the match taken apart and put together again with the chunk's begin index added (which index that is, C02-IDX decides)"""
+    payload = ('field', inner, 1, 0)
+    if a == inner or a == some(payload):
+        return True
+    if a is not None and a[0] == 'variant' and a[1] == 'std::option::Option' and a[2] == 1 and len(a[3]) == 1 and a[3][0][0] == 'tuple' and len(a[3][0][1]) == 2:
+        i0, v0 = a[3][0][1]
+        p0, p1 = ('field', payload, None, 0), ('field', payload, None, 1)
+        if v0 == p1 and (i0 == p0 or (i0[0] == 'bin' and i0[1] == 'Add' and p0 in (i0[2], i0[3]) and
+                                      p0 not in set(subterms(i0[3] if i0[2] == p0 else i0[2])))):
+            return True
+    return False
+
+
 @rule('C02-FIRST', 'inside a task the match comes from an in-order short-circuit terminal over the pulled elements and is returned as found')
 def c02_first(ctx):
     out = RuleOut('C02-FIRST')
@@ -2769,13 +2784,13 @@ def c02_first(ctx):
                 # continue the analysis from the match edge only: everything returned from there is the tested match
                 r2 = ctx.opa.run(tn, start=one, start_env=env1)
                 val = r2.ret
-                if val is None or any(a != inner and a != some(('field', inner, 1, 0)) for a in alternatives(val)):
+                if val is None or any(not _is_tested_match(a, inner) for a in alternatives(val)):
                     probs.append('on the match edge the task returns %s, not the match it tested' % t_str(val)[:100])
             else:
                 after = cfg.reach(one)
                 for (pred, rb), (val, pc) in r.ret_edges.items():
                     if pred in after and pred not in cfg.reach(zero, avoid={sbb}) | set():
-                        if any(a != inner and a != some(('field', inner, 1, 0)) for a in alternatives(val)):
+                        if any(not _is_tested_match(a, inner) for a in alternatives(val)):
                             probs.append('on the match edge the task returns %s, not the match it tested' % t_str(val)[:100])
             out.inst(key, not probs, t_str(x)[:100], sample={'task': key_of(b), 'search': t_str(x)[:160]})
             for p in probs:
